@@ -451,20 +451,23 @@ pub(crate) fn run_scheduling_solver(
             let v_id = ResourceVariantId::new(0);
             let n_nodes = rqv.get(v_id).n_nodes() as usize;
             let mut ws: Vec<ThinVec<WorkerId>> = Vec::new();
+            // Nodes of one multi-node task have to come from the same worker group,
+            // so the chosen workers are split into tasks group by group
+            let mut chosen: std::collections::BTreeMap<&str, Vec<WorkerId>> = Default::default();
             for worker in &workers {
                 if let Some(v) = placements.get(&(worker.id, resource_rq_id, v_id)) {
                     let count = solution.get_value(*v).round() as u32;
                     if count > 0 {
-                        if let Some(last) = ws.last_mut()
-                            && last.len() < n_nodes
-                        {
-                            last.push(worker.id);
-                        } else {
-                            let mut workers = ThinVec::with_capacity(n_nodes);
-                            workers.push(worker.id);
-                            ws.push(workers);
-                        }
+                        chosen
+                            .entry(worker.configuration.group.as_str())
+                            .or_default()
+                            .push(worker.id);
                     }
+                }
+            }
+            for group_workers in chosen.values() {
+                for nodes in group_workers.chunks(n_nodes) {
+                    ws.push(nodes.iter().copied().collect());
                 }
             }
             if !ws.is_empty() {
